@@ -186,6 +186,12 @@ def run(prog, ctx):
     tmi = Terms(ir.node, max_depth=0)
     ic = [x for x in ast.walk(ir.node) if isinstance(x, ast.Call) and prog.resolve_class_expr(ir.module.name, x.func, None) is ro]
     ctx.floor("C06.D0", len(ic), 1, "initial interval constructions")
+    # the per-dimension point / level arrays are one object per dimension: a loop must not store an array it keeps filling
+    als = R.loop_carried_aliases(prog, ir)
+    ctx.check(not als, "C06.D0", R.key_of(ir, "own-array-per-dimension"), ir.loc(als[0][0]) if als else ir.loc(),
+              "no array that the loop keeps filling is stored once per iteration",
+              "`%s` stores the array `%s` in every iteration although the loop does not bind a new array on every path and changes it in "
+              "place (%s): all dimensions end up with the points of the last one" % (src(als[0][0]) if als else "", als[0][1] if als else "", als[0][2] if als else ""))
     for x in ic:
         a = _ctor_args(prog, ir, x, ro)
         s_, e_, lv = tmi.term(a.get("start")), tmi.term(a.get("end")), tmi.term(a.get("levels"))
